@@ -34,12 +34,43 @@ ASSUMPTIONS = [
     "deterministic optimizers only (greedy, optimal, explicit paths) so that path equality is meaningful",
     "module-level lru caches stay warm in both modes (they are part of what is observed; the value oracle covers them)",
 ]
-REQUIRED_MONITORS = ["cached_vs_uncached", "value_vs_E1", "path_equal", "expr_reused_new_arrays", "collision_pool", "near_pairs"]
+REQUIRED_MONITORS = ["custom_impl_observed", "cached_vs_uncached", "value_vs_E1", "path_equal", "expr_reused_new_arrays", "collision_pool", "near_pairs"]
 SHARD_TIMEOUT = {"quick": 400, "thorough": 3600}
 
 
 def nshards(tier):
     return 16
+
+
+# options whose effect is observable: a conversion pair and a user supplied implementation
+def VIA_IN(x):
+    return x * 2.0
+
+
+def VIA_OUT(y):
+    return y * 3.0
+
+
+CUSTOM_CALLS = {"n": 0}
+
+
+def custom_einsum(eq, *arrays):
+    CUSTOM_CALLS["n"] += 1
+    return np.einsum(eq, *arrays)
+
+
+def custom_tensordot(a, b, axes=2):
+    CUSTOM_CALLS["n"] += 1
+    return np.tensordot(a, b, axes)
+
+
+def resolve_kwargs(kw):
+    kw = dict(kw)
+    if kw.get("via") == "VIA":
+        kw["via"] = (VIA_IN, VIA_OUT)
+    if kw.get("implementation") == "CUSTOM":
+        kw["implementation"] = (custom_einsum, custom_tensordot)
+    return kw
 
 
 def classify(v):
@@ -69,7 +100,7 @@ def make_pool(rng, tier):
 
     members.append(member(base))
     inds = [ix for ix in base.size_dict if any(ix in t for t in base.inputs)]
-    choices = ["output_order", "size", "optimize", "strip", "impl", "prefer_einsum", "sort", "relabel", "explicit"]
+    choices = ["output_order", "size", "optimize", "strip", "impl", "prefer_einsum", "sort", "relabel", "explicit", "via", "impl_custom", "via", "impl_custom"]
     rng.shuffle(choices)
     for what in choices[: rng.randint(2, 6)]:
         if what == "output_order" and len(base.output) >= 2:
@@ -90,6 +121,10 @@ def make_pool(rng, tier):
             members.append(member(base, kwargs={"implementation": rng.choice(["cotengra", "autoray"])}, tag=what))
         elif what == "prefer_einsum":
             members.append(member(base, kwargs={"prefer_einsum": True}, tag=what))
+        elif what == "via" and not any(m["tag"] == "via" for m in members):
+            members.append(member(base, kwargs={"via": "VIA"}, tag=what))
+        elif what == "impl_custom" and not any(m["tag"] == "impl_custom" for m in members):
+            members.append(member(base, kwargs={"implementation": "CUSTOM"}, tag=what))
         elif what == "sort":
             members.append(member(base, kwargs={"sort_contraction_indices": True}, tag=what))
         elif what == "relabel":
@@ -184,7 +219,7 @@ def thaw_optimize(m):
 def one_call(m, api, cache, arrays):
     """-> ("ok", value) | ("raise", ExceptionTypeName, message)"""
     opt = thaw_optimize(m)
-    kw = dict(m["kwargs"])
+    kw = resolve_kwargs(m["kwargs"])
     try:
         if "raw" in m:
             r = m["raw"]
@@ -241,8 +276,19 @@ def run_history(rep, case):
         last_api_member[api] = mi
         first = case["order"][step % len(case["order"])]
         res = {}
+        used_custom = {}
         for cache in ([True, False] if first else [False, True]):
+            n0 = CUSTOM_CALLS["n"]
             res[cache] = one_call(m, api, cache, arrays)
+            used_custom[cache] = CUSTOM_CALLS["n"] - n0
+        if api != "path" and "raw" not in m and res[True][0] == "ok" and res[False][0] == "ok":
+            wants_custom = m["kwargs"].get("implementation") == "CUSTOM" and net.N >= 2
+            rep.mon("custom_impl_observed")
+            for cache in (True, False):
+                if wants_custom and used_custom[cache] == 0:
+                    return ("option_ignored", step, f"step {step}: {api} on member {mi} ({m['tag']}) cache={cache}: the supplied implementation was never called")
+                if not wants_custom and used_custom[cache] != 0:
+                    return ("option_leaked", step, f"step {step}: {api} on member {mi} ({m['tag']}) cache={cache}: another call's implementation was used")
         rep.mon("cached_vs_uncached")
         rep.count("api", api)
         c, u = res[True], res[False]
@@ -265,7 +311,11 @@ def run_history(rep, case):
             if msg:
                 return ("path_invalid", step, f"{where}: {msg}")
             continue
-        want, bound, nsum = ref.dense_einsum(net.inputs, net.output, arrays, with_bound=True)
+        if m["kwargs"].get("via") == "VIA":
+            want, bound, nsum = ref.dense_einsum(net.inputs, net.output, [VIA_IN(a) for a in arrays], with_bound=True)
+            want, bound = VIA_OUT(want), VIA_OUT(bound)
+        else:
+            want, bound, nsum = ref.dense_einsum(net.inputs, net.output, arrays, with_bound=True)
         for label, r in (("cached", c), ("uncached", u)):
             try:
                 got = value_of(r, m)
@@ -279,14 +329,18 @@ def run_history(rep, case):
         if api in ("expr", "einsum_expr"):
             try:
                 if api == "expr":
-                    e = ctg.array_contract_expression(net.inputs, net.output, net.size_dict, optimize=thaw_optimize(m), cache=True, **m["kwargs"])
+                    e = ctg.array_contract_expression(net.inputs, net.output, net.size_dict, optimize=thaw_optimize(m), cache=True, **resolve_kwargs(m["kwargs"]))
                 else:
-                    e = ctg.einsum_expression(net.eq(), *net.shapes(), optimize=thaw_optimize(m), cache=True, **m["kwargs"])
+                    e = ctg.einsum_expression(net.eq(), *net.shapes(), optimize=thaw_optimize(m), cache=True, **resolve_kwargs(m["kwargs"]))
                 arrays2 = net.arrays(rng_for(case["case_seed"], "arr2", step), "float")
                 got = value_of(("ok", e(*arrays2)), m)
             except Exception as e2:
                 return ("raises", step, f"{where}: reusing the cached expression raised {type(e2).__name__}: {e2}")
-            w2, b2, n2 = ref.dense_einsum(net.inputs, net.output, arrays2, with_bound=True)
+            if m["kwargs"].get("via") == "VIA":
+                w2, b2, n2 = ref.dense_einsum(net.inputs, net.output, [VIA_IN(a) for a in arrays2], with_bound=True)
+                w2, b2 = VIA_OUT(w2), VIA_OUT(b2)
+            else:
+                w2, b2, n2 = ref.dense_einsum(net.inputs, net.output, arrays2, with_bound=True)
             rep.mon("expr_reused_new_arrays")
             msg = ref.compare(got, w2, b2, n2, net.N)
             if msg:
